@@ -10,7 +10,8 @@ from __future__ import annotations
 
 class Round:
     def __init__(self, *, n, live, stacks, bets, first_actor, street_min,
-                 cap, structure, bring_in, first_street, mode, total_chips):
+                 cap, structure, bring_in, first_street, mode, total_chips,
+                 pot0=None):
         self.n = n
         self.live = list(live)
         self.stacks = list(stacks)
@@ -19,7 +20,11 @@ class Round:
         self.cap = cap
         self.structure = structure          # 'FIXED_LIMIT' | 'POT_LIMIT' | ..
         self.mode = mode                    # 'T' | 'C'
-        self.total_chips = total_chips      # all chips in play (sum starting)
+        # chips on the table when the round begins (pots and the forced bets
+        # in front of the players); stacks may be unknown (math.inf), so the
+        # pot is counted from what is put in, not from what is left
+        self.pot0 = total_chips - sum(self.stacks) if pot0 is None else pot0
+        self.bets0 = sum(self.bets)
         self.largest = 0 * street_min       # largest raise increment so far
         self.count = 0                      # completions/bets/raises so far
         # Re-opening (WSOP live-action rule 129 / tournament rule 96, TDA 43):
@@ -47,8 +52,8 @@ class Round:
         others = [self.stacks[j] + self.bets[j] for j in range(self.n)
                   if j != i and self.live[j]]
         if not others:
-            return 0 * self.stacks[i]
-        return min(self.stacks[i], max(0 * self.stacks[i],
+            return 0 * self.street_min
+        return min(self.stacks[i], max(0 * self.street_min,
                                        max(others) - self.bets[i]))
 
     def can_act_at_start(self, i):
@@ -68,7 +73,7 @@ class Round:
 
     @property
     def pot_total(self):
-        return self.total_chips - sum(self.stacks)
+        return self.pot0 + sum(self.bets) - self.bets0
 
     # ---- what is allowed ----------------------------------------------------
     def fold_status(self):
